@@ -43,7 +43,7 @@ ASSUMPTIONS = [
 ]
 SETTINGS: Dict[str, Dict[str, Any]] = {
     "quick": {"cases": 160, "strace_every": 8, "budget_s": 75, "minimums": {"runs_into_a_directory_of_links_to_archived_reports": 6, "audited_runs": 120, "strace_runs": 12, "write_events": 250, "import_events": 20000, "modules_swept": 40, "import_sites": 250, "nontrivial": 100, "error_path_runs": 40, "runs_with_rp2_env_variable_set": 12, "tag_env_names_read_by_rp2": 2, "tag_error_types": 3, "tag_fault_class": 20, "large_input_runs": 2, "tag_hard_error": 11}, "required_tags": {"tag_country": list(COUNTRIES)}},
-    "thorough": {"cases": 1600, "strace_every": 8, "budget_s": 600, "minimums": {"runs_into_a_directory_of_links_to_archived_reports": 60, "audited_runs": 1200, "strace_runs": 120, "write_events": 4000, "import_events": 200000, "modules_swept": 40, "import_sites": 250, "nontrivial": 1000, "error_path_runs": 400, "runs_with_rp2_env_variable_set": 120, "tag_env_names_read_by_rp2": 2, "tag_error_types": 3, "tag_fault_class": 24, "large_input_runs": 20, "tag_hard_error": 13}, "required_tags": {"tag_country": list(COUNTRIES)}},
+    "thorough": {"cases": 1600, "strace_every": 8, "budget_s": 600, "minimums": {"runs_into_a_directory_of_links_to_archived_reports": 36, "audited_runs": 720, "strace_runs": 72, "write_events": 2400, "import_events": 120000, "modules_swept": 40, "import_sites": 250, "nontrivial": 600, "error_path_runs": 240, "runs_with_rp2_env_variable_set": 72, "tag_env_names_read_by_rp2": 2, "tag_error_types": 3, "tag_fault_class": 24, "large_input_runs": 12, "tag_hard_error": 13}, "required_tags": {"tag_country": list(COUNTRIES)}},
 }
 NETWORK_MODULES = {
     "socket", "_socket", "ssl", "_ssl", "http", "http.client", "http.server", "http.cookiejar", "urllib.request", "urllib3", "ftplib", "smtplib", "poplib", "imaplib",
